@@ -27,6 +27,7 @@
 // statement count other than 2n) the shortest failing prefix of statements is located by bisection, its last statement
 // is reported as ERR@script / PANIC@script / COUNT@script, and a NEW script (a new Parse call) starts after it; after
 // scriptMaxRestarts such restarts the remaining statements are reported as SKIP.
+// typedump -script N: at most N types (2N statements) per script; the next script starts with the next type.
 package main
 
 import (
@@ -35,6 +36,7 @@ import (
 	"encoding/hex"
 	"fmt"
 	"os"
+	"strconv"
 	"strings"
 
 	"github.com/sqlc-dev/doubleclick/ast"
@@ -211,9 +213,21 @@ func mainScript() {
 			break
 		}
 	}
-	res := runScript(types)
-	for i, l := range hexes {
-		fmt.Fprintf(out, "%s\t%s\t%s\t%s\n", l, res[2*i], res[2*i+1], toks(types[i]))
+	per := len(types)
+	if len(os.Args) > 2 {
+		if n, err := strconv.Atoi(os.Args[2]); err == nil && n > 0 {
+			per = n
+		}
+	}
+	for from := 0; from < len(types); from += per {
+		to := from + per
+		if to > len(types) {
+			to = len(types)
+		}
+		res := runScript(types[from:to])
+		for i := from; i < to; i++ {
+			fmt.Fprintf(out, "%s\t%s\t%s\t%s\n", hexes[i], res[2*(i-from)], res[2*(i-from)+1], toks(types[i]))
+		}
 	}
 }
 
